@@ -33,13 +33,13 @@ pub fn check() -> Check {
         spec: CheckSpec {
             prop: "C10",
             level: "exploration",
-            rule: "execution = one real node running the real handle_changes loop with processing_queue_len in 1..64, apply_queue_len in 1..50 and a short batching interval; traffic from 1-4 actors: complete versions, versions cut into 2-12 chunks, empties, exact duplicates, interleaved actors, offered while the harness holds the write connection for seeded intervals so the queue overflows; then re-offer rounds (everything not held, random order) with logical idleness between rounds (hook gauges: received == sent, queue empty, nothing in flight, apply triggers drained); then re-offer rounds in which every version not fully held is offered again as its original chunks, as one complete changeset or freshly cut (other suppliers cut differently); oracle: a version still not fully held after 3 idle re-offer rounds is lost for good; whenever bookkeeping claims a version/seq range the rows are in the table or the buffer; non-trivial = execution in which at least one changeset was dropped by the full queue; distinct by hash of the configuration+traffic",
+            rule: "execution = one real node running the real handle_changes loop with processing_queue_len in 1..64, apply_queue_len in 1..50 and a short batching interval; traffic from 1-4 actors: complete versions, versions cut into 2-12 chunks, cleared versions announced as empty changesets, exact duplicates, and in 30% of the executions very few distinct versions (one version in 20-40 chunks plus 1-3 cleared versions of another actor), interleaved actors, offered while the harness holds the write connection for seeded intervals so the queue overflows; then re-offer rounds (everything not held, random order) with logical idleness between rounds (hook gauges: received == sent, queue empty, nothing in flight, apply triggers drained); then re-offer rounds in which every version not fully held is offered again as its original chunks, as one complete changeset or freshly cut (other suppliers cut differently); oracle: a version still not fully held after 3 idle re-offer rounds is lost for good; whenever bookkeeping claims a version/seq range the rows are in the table or the buffer; non-trivial = execution in which at least one changeset was dropped by the full queue; distinct by hash of the configuration+traffic",
             assumptions: &[
                 "bounded restatement of 'after finitely many offers': 3 idle re-offer rounds after the overload ended",
                 "one handle_changes loop per process (the hook gauges are process-wide)",
             ],
             min_nontrivial: 10,
-            required_stats: &["offers", "dropped_by_full_queue", "reoffer_rounds", "multi_actor_executions", "multi_chunk_versions"],
+            required_stats: &["offers", "dropped_by_full_queue", "reoffer_rounds", "multi_actor_executions", "multi_chunk_versions", "cleared_versions_offered", "few_versions_executions"],
         },
         budget: (60, 900),
         workers: (12, 14),
@@ -120,6 +120,20 @@ fn cut(actor_idx: u8, version: u64, k: usize, a: usize, b: usize) -> Item {
     }
 }
 
+/// the origin cleared this version: it is announced as an empty changeset
+fn empty_item(actor_idx: u8, version: u64) -> Item {
+    Item {
+        change: ChangeV1 {
+            actor_id: fake_actor(actor_idx),
+            changeset: Changeset::Empty {
+                versions: CrsqlDbVersion(version)..=CrsqlDbVersion(version),
+                ts: Some(Timestamp::from((version << 32) + actor_idx as u64 + 1)),
+            },
+        },
+        ids: vec![],
+    }
+}
+
 async fn held(node: &Node, c: &ChangeV1) -> bool {
     let booked = { node.bookie.read::<&str, _>("verif", None).await.get(&c.actor_id).cloned() };
     match booked {
@@ -173,7 +187,8 @@ async fn wait_idle(node: &mut Node, sent: i64, tally: &mut HookTally, pending: &
 pub async fn one_execution(seed: u64, stats: &mut BTreeMap<String, u64>) -> Result<(Vec<(String, Value)>, String, bool), String> {
     use rand::SeedableRng;
     let mut rng = rand::rngs::StdRng::seed_from_u64(seed);
-    let qlen = *crate::common::pick(&mut rng, &[1usize, 2, 3, 5, 8, 20, 64]);
+    let few_versions = chance(&mut rng, 300);
+    let qlen = if few_versions { *crate::common::pick(&mut rng, &[2usize, 3, 5]) } else { *crate::common::pick(&mut rng, &[1usize, 2, 3, 5, 8, 20, 64]) };
     let alen = *crate::common::pick(&mut rng, &[1usize, 2, 5, 20, 50]);
     let tick = *crate::common::pick(&mut rng, &[1usize, 3, 10]);
     let mut node = new_node(
@@ -196,20 +211,43 @@ pub async fn one_execution(seed: u64, stats: &mut BTreeMap<String, u64>) -> Resu
     let mut tally = HookTally::default();
     let mut pending = 0u64;
 
-    let n_actors = rng.random_range(1..=4u8);
+    let mut n_actors = rng.random_range(1..=4u8);
     let mut items: Vec<Item> = vec![];
-    let mut versions_meta: Vec<(u8, u64, usize)> = vec![]; // (actor idx, version, k)
+    let mut versions_meta: Vec<(u8, u64, usize)> = vec![]; // (actor idx, version, k); k == 0: cleared version
     let mut multi_chunk = 0;
-    for a in 0..n_actors {
-        let versions = rng.random_range(1..=6u64);
-        for v in 1..=versions {
-            let k = *crate::common::pick(&mut rng, &[1usize, 2, 4, 12, 30]);
-            let chunks = if k > 1 && chance(&mut rng, 500) { rng.random_range(2..=12) } else { 1 };
-            if chunks > 1 {
-                multi_chunk += 1;
+    if few_versions {
+        // very few distinct (actor, version) keys in flight: one version in many chunks and a
+        // couple of cleared versions of another actor (the loop's duplicate cache is never
+        // trimmed by such traffic)
+        n_actors = 2;
+        let k = 40usize;
+        items.extend(mk_version(1, 1, k, rng.random_range(20..=40)));
+        versions_meta.push((1, 1, k));
+        multi_chunk += 1;
+        for v in 1..=rng.random_range(1..=3u64) {
+            items.push(empty_item(2, v));
+            versions_meta.push((2, v, 0));
+            *stats.entry("cleared_versions_offered".into()).or_insert(0) += 1;
+        }
+        *stats.entry("few_versions_executions".into()).or_insert(0) += 1;
+    } else {
+        for a in 0..n_actors {
+            let versions = rng.random_range(1..=6u64);
+            for v in 1..=versions {
+                if chance(&mut rng, 120) {
+                    items.push(empty_item(a + 1, v));
+                    versions_meta.push((a + 1, v, 0));
+                    *stats.entry("cleared_versions_offered".into()).or_insert(0) += 1;
+                    continue;
+                }
+                let k = *crate::common::pick(&mut rng, &[1usize, 2, 4, 12, 30]);
+                let chunks = if k > 1 && chance(&mut rng, 500) { rng.random_range(2..=12) } else { 1 };
+                if chunks > 1 {
+                    multi_chunk += 1;
+                }
+                items.extend(mk_version(a + 1, v, k, chunks));
+                versions_meta.push((a + 1, v, k));
             }
-            items.extend(mk_version(a + 1, v, k, chunks));
-            versions_meta.push((a + 1, v, k));
         }
     }
     *stats.entry("multi_chunk_versions".into()).or_insert(0) += multi_chunk;
@@ -269,7 +307,7 @@ pub async fn one_execution(seed: u64, stats: &mut BTreeMap<String, u64>) -> Resu
     for r in 0..4 {
         not_held.clear();
         for (idx, (ai, v, k)) in versions_meta.iter().enumerate() {
-            let complete = cut(*ai, *v, *k, 0, *k - 1);
+            let complete = if *k == 0 { empty_item(*ai, *v) } else { cut(*ai, *v, *k, 0, *k - 1) };
             if !held(&node, &complete.change).await {
                 not_held.push(idx);
             }
@@ -282,9 +320,14 @@ pub async fn one_execution(seed: u64, stats: &mut BTreeMap<String, u64>) -> Resu
         not_held.shuffle(&mut rng);
         for idx in not_held.iter() {
             let (ai, v, k) = versions_meta[*idx];
-            let strategy = rng.random_range(0..3);
+            let strategy = if k == 0 { 9 } else { rng.random_range(0..3) };
             let mut offers: Vec<ChangeV1> = vec![];
             match strategy {
+                9 => {
+                    // a cleared version is announced again as it is
+                    offers.push(empty_item(ai, v).change);
+                    *stats.entry("reoffer.cleared_version".into()).or_insert(0) += 1;
+                }
                 0 => {
                     // the original chunks that are not held
                     for it in items.iter() {
